@@ -222,7 +222,6 @@ def anam_scenarios(rng, quick):
         nc = NC('An', **(ncargs or {}))
         mode = 0 if sub in (0, 1) else 1
         extra = 1
-        if sub == 1: extra = 0                       # gaussianToRawByLocator never selects a transformation: _check fails
         if sub == 2 and (nfact < 1 or nfact > 6): extra = 0
         sc = Sc(3, sub, [nfact], nc, dbin, dbin, alias=1, variant=variant, natural=natural,
                 nout=((nz if mode == 0 else nfact), 0), mode=mode, n=nfact, extra_ok=extra)
@@ -230,7 +229,7 @@ def anam_scenarios(rng, quick):
         return sc
     out.append(mk(0, variant='raw-to-gaussian')); out.append(mk(0, nz=2, variant='raw-to-gaussian-multivar'))
     out.append(mk(2, nfact=3, variant='raw-to-factor'))
-    out.append(mk(1, variant='gaussian-to-raw', natural='check'))
+    out.append(mk(1, variant='gaussian-to-raw'))      # since fix C18_1 it selects _flagVars with _flagZToY = false
     out.append(mk(2, nfact=9, variant='raw-to-factor-too-many', natural='check'))
     out.append(mk(2, nz=2, variant='raw-to-factor-multivar', natural='check'))
     out.append(mk(0, nz=0, variant='no-z-variable', natural='check'))
